@@ -6,7 +6,7 @@ from props import exec_common as E
 TARGETS = ['theories/Props/C08.vo', 'theories/Corr/Exec.vo']
 
 
-def oracle(sheets, cls, ops, obs, vals):
+def oracle(sheets, cls, ops, obs, vals, src=None):
     """Relational checks on the implementation:
        (1) every value returned for a uid equals the value a FRESH executor (same class, same overrides applied in one batch,
            single numeric query, nothing queried before) returns;
@@ -34,7 +34,12 @@ def oracle(sheets, cls, ops, obs, vals):
         fresh = I.executor(cls)
         if m:
             fresh.set_cells([I.Cell(*E.uid_to_addr(u), v) for u, v in m.items()])
-        for u, got in vals[i]:
+        # the reference executor runs on a FRESHLY LOADED class (state kept on the class object would be shared otherwise); for a
+        # whole-sheet query one fresh class answers all cells, asked in the reverse order
+        whole = op[0] == 'sheet'
+        shared = None
+        seq = list(reversed(vals[i])) if whole else vals[i]
+        for u, got in seq:
             if u == '__shape__':
                 t = op[1] if isinstance(op[1], int) else fresh._titles[op[1]]
                 lr, lc = sizes[t]
@@ -44,9 +49,13 @@ def oracle(sheets, cls, ops, obs, vals):
             if 'any' in u:
                 continue
             t, c, r = E.uid_to_addr(u)
-            fr = I.executor(cls)
-            if m:
-                fr.set_cells([I.Cell(*E.uid_to_addr(k), v) for k, v in m.items()])
+            if whole and shared is not None:
+                fr = shared
+            else:
+                fr = I.executor(I.load(src) if src is not None else cls)
+                if m:
+                    fr.set_cells([I.Cell(*E.uid_to_addr(k), v) for k, v in m.items()])
+                shared = fr
             exp = I.outcome(lambda: fr.get_cell(I.Cell(t, c, r)).value)
             if E.canon(got) != E.canon(exp):
                 return 'after %d operation(s) the query of %s returned %r; a fresh executor with the same overrides returns %r' % (
@@ -56,9 +65,10 @@ def oracle(sheets, cls, ops, obs, vals):
 
 def make_case(rc):
     sheets, ops = rc['sheets'], rc['ops']
-    cls = E.build_class(sheets)
+    src, _ = I.translate([(t, dict(cells)) for t, cells in sheets])
+    cls = I.load(src)
     obs, vals = E.run_history(cls, ops)
-    fail = oracle(sheets, cls, ops, obs, vals)
+    fail = oracle(sheets, cls, ops, obs, vals, src)
     kinds = {o[0] for o in ops if o[0] != 'set'}
     return {'recipe': rc, 'coq': E.coq_case(sheets, ops, obs, fail is None), 'key': rc, 'nontrivial': len(kinds) >= 2, 'oracle_fail': fail}
 
